@@ -28,3 +28,5 @@ open('build/cov/uncovered.txt','w').write("\n".join(out)+"\n")
 print(len(out), "uncovered lines -> build/cov/uncovered.txt")
 PY
 tail -5 build/cov/report.txt
+# instrumented build scripts / proc macros leave default_*.profraw in the crate directories of the tree under test: remove them
+find /repo -name 'default_*.profraw' -not -path '*/target/*' -delete 2>/dev/null
